@@ -166,4 +166,42 @@ PROPS = {
                                         "time.Parse of the 16-byte GPMF date layout modelled as a validity predicate"],
         "assumptions": ["map aliasing (a sensor element's Metadata IS its stream's map) is modelled by resolving the alias to the stream's final map when dumping"],
     },
+    "C17": {
+        "props": "TrackVerif.Geo.PropsC17",
+        "streams": [("GE", 3000, 60000)],
+        "clauses": ["ge.online_hit", "ge.online_miss", "ge.endpoint_order", "ge.tol_monotone", "ge.no_crash"],
+        "rule": "PRNG(seed) tuples: line 1 m..1 km (log-uniform) at any bearing, |lat| < 84.9, any longitude, tolerance 1 cm..30 m (log-uniform), radius Earth/Moon/1 km/2x; position before, beside and "
+                "beyond the segment at 0..3 tolerances, one third placed at 0.97/0.985/1.02/1.03 x tolerance (just outside the guard band); each case evaluates OnLine for (a,b), (b,a) and 2x tolerance "
+                "against the independent oracle distance; non-trivial = position within 3 tolerances",
+        "trusted_base": KERNEL + TIE + ["Lean Float = host IEEE-754 double + host libm (sin, cos, asin, sqrt) vs Go's math package: intermediate quantities compared at 1e-9 relative",
+                                        "independent oracle in the harness: 3-D unit-vector great-circle distance / distance-to-segment in float64",
+                                        "hook pkg/gopro/gpmf/geo/verif_hooks.go (build tag verif) exposes unexported helpers"],
+        "assumptions": ["the guard band (1% + 0.1 mm) is the floating-point slack: it is established by this sampling only, the theorems over ℝ have no band"],
+        "partial_notes": ["onLine_sound / onLine_complete (full equivalence with the great-circle distance to the segment over ℝ, incl. the cross-track and along-track tests) are not proved; proved: tolerance monotonicity for any order, end caps, hav/invHav/havSin identities, end-point symmetry of the end-cap and length quantities"],
+    },
+    "C18": {
+        "props": "TrackVerif.Geo.PropsC18",
+        "streams": [("GE", 3000, 60000)],
+        "clauses": ["ge.distance", "ge.distance_symmetric", "ge.distance_linear", "ge.distance_zero", "ge.line_distance"],
+        "rule": "position pairs 0.1 m..1000 km apart (log-uniform) at all bearings, |lat| < 89 (fast method: < 10 km, |lat| < 79), identical positions 1 in 30, several radii; each case also evaluates the "
+                "swapped pair and twice the radius; (segment, position) pairs as C17 with positions up to 300 m away for DistanceToLine; oracle = vector great-circle distance / distance to segment",
+        "trusted_base": KERNEL + TIE + ["Lean Float = host IEEE-754 double + host libm (sin, cos, asin, sqrt) vs Go's math package: intermediate quantities compared at 1e-9 relative",
+                                        "independent oracle in the harness: 3-D unit-vector great-circle distance / distance-to-segment in float64",
+                                        "hook pkg/gopro/gpmf/geo/verif_hooks.go (build tag verif) exposes unexported helpers"],
+        "assumptions": ["relative-error bounds (1e-9 default, 1e-5 fast, 1% line) are properties of float64 evaluation and are sampled; coordinates are float64 so an absolute slack of 1e-8 m is allowed"],
+        "partial_notes": ["equirectangular 1e-5 accuracy bound and DistanceToLine's 1% bound: sampled only"],
+    },
+    "C19": {
+        "props": "TrackVerif.Geo.PropsC19",
+        "streams": [("GE", 2400, 40000)],
+        "clauses": ["ge.meet", "ge.same_direction", "ge.horizon_nan", "ge.forward_nan", "ge.roundtrip_geo", "ge.roundtrip_plane", "ge.on_both", "ge.crossing_mm", "ge.inside_ok", "ge.outside_err"],
+        "rule": "plane algebra on random points (bit-exact); sameDirection near 0/90/180/360; Forward/Reverse round trips for centres anywhere and points 1 m..8900 km away (NaN expected beyond 10200 km); "
+                "segment pairs built by geodesic.Direct through a known crossing point C at crossing angles 5..175 deg, lengths 10 m..1000 km, C at 5..95% (inside) or outside each segment, not straddling "
+                "the 180th meridian: extended intersection within 1 mm of C, azimuths equal/opposite within 1e-6 deg, Intersect ok iff inside both",
+        "trusted_base": KERNEL + TIE + ["Lean Float = host IEEE-754 double + host libm (sin, cos, asin, sqrt) vs Go's math package: intermediate quantities compared at 1e-9 relative",
+                                        "independent oracle in the harness: 3-D unit-vector great-circle distance / distance-to-segment in float64",
+                                        "hook pkg/gopro/gpmf/geo/verif_hooks.go (build tag verif) exposes unexported helpers"] + ["tidwall/geodesic (Inverse, Direct, GenInverse, GenPosition) is the reference solver: the ellipsoidal accuracy claims are sampled against it, not proved"],
+        "assumptions": ["no port of the geodesic series exists in the model; theorems cover the plane algebra and the decision logic"],
+        "partial_notes": ["projection round-trip accuracy, convergence of the Newton / re-centring iterations and the millimetre bound are sampled only"],
+    },
 }
